@@ -21,6 +21,21 @@
 //! * [`compare`] — [`compare`] (engine rows vs reference, with the explicit tolerances),
 //!   [`canon_rows`], [`multiset`], [`answers_agree`].
 //! * [`exec`] — [`run_query`], [`run_query_session`], [`exec_session`] (panic-catching).
+//! * [`check_rows`] — one-call reference check of an engine answer (eval + compare).
+//!
+//! # Semantics fixed by the model (read before reusing)
+//!
+//! * homomorphism matching; a variable-length hop `*a..b` enumerates walks of a..b edges;
+//! * same variable name in several paths = same binding; `optional` paths are a left join;
+//! * WHERE is three-valued (Kleene); comparison with a missing property is unknown; values of
+//!   different type classes are unequal and unordered;
+//! * `count(x.k)` counts non-NULL values, `sum` over nothing is 0 (NULL tolerated), `min/max/avg`
+//!   over nothing are NULL, `collect` skips NULLs and is compared as a multiset;
+//! * non-aggregate items next to aggregates are the grouping key; a global aggregate over no
+//!   bindings yields one row;
+//! * DISTINCT, then ORDER BY (NULL greatest in the reference; either end accepted), then SKIP,
+//!   then LIMIT;
+//! * node / edge items are rendered as `Int64(id)` — what this engine returns for `RETURN n`.
 //!
 //! # Typical use
 //!
@@ -40,6 +55,15 @@
 //!     }
 //! }
 //! ```
+
+/// Reference check of one engine answer: evaluates `q` over `g` under both self-loop conventions
+/// for undirected hops and applies [`compare`] (all documented tolerances).
+pub fn check_rows(g: &QGraph, ids: &IdMap, q: &Query, rows: &[Vec<grafeo_common::types::Value>]) -> Verdict {
+    let want = eval(g, ids, q, EvalOpts { loop_twice: true });
+    let undirected_over_loop = g.edges.iter().any(|e| e.src == e.dst) && q.paths.iter().chain(q.optional.iter()).any(|p| p.hops.iter().any(|h| h.dir == Dir::Both));
+    let alt = if undirected_over_loop { Some(eval(g, ids, q, EvalOpts { loop_twice: false })) } else { None };
+    compare(rows, &want, alt.as_ref())
+}
 
 pub mod ast;
 pub mod compare;
